@@ -48,10 +48,15 @@ fn line_changes(patched_file: &PatchedFile) -> Vec<LineChange> {
                 if let Some(deleted_line) = deleted_lines.pop_front() {
                     // This is a modified line. Find modified ranges in it.
                     let ranges = line_diff(&deleted_line.value, &line.value);
-                    line_changes.push(LineChange {
-                        line: line.target_line_no.unwrap(),
-                        ranges: Some(ranges),
-                    });
+                    // A line with an identical text (e.g. only the trailing newline at the end
+                    // of the file was added) is not a change: it intersects with nothing and
+                    // would break the ordering that the binary search over changes relies on.
+                    if !ranges.is_empty() {
+                        line_changes.push(LineChange {
+                            line: line.target_line_no.unwrap(),
+                            ranges: Some(ranges),
+                        });
+                    }
                 } else {
                     // This is a new (added) line.
                     line_changes.push(LineChange {
